@@ -108,6 +108,11 @@ func genC13(r *rt.Rand, tier string, idx int) *world.Scenario {
 			cl.Ops = append(cl.Ops, world.Op{K: "streamparts", Key: rg[0], End: rg[1], Rev: revs()})
 		}
 	}
+	if idx%10 == 7 {
+		// transient iterator errors: a partition scan is retried; what is finally answered must still be right
+		sc.Class += "+read-errors"
+		sc.Rates.ReadErr = 0.02 + 0.06*r.Float64()
+	}
 	sc.Clients = []world.Client{cl}
 	sc.MaxSteps = 60000
 	return sc
